@@ -215,11 +215,11 @@ Clear == /\ Idle /\ tree' = Nil /\ lastOp' = Op("clear", 0, 0, 0)
 \* one getnext call; at the end of a walk its output is compared with the sorted contents (C03) or,
 \* for a continuation from a nearest-key search, with the key set (C04)
 GetNext ==
-  /\ bad = "" /\ mode \in {"idle", "walk", "nwalk"}
+  /\ bad = "" /\ mode \in {"idle", "walk", "nwalk", "rmwalk", "rmwalk-r"}
   /\ LET g == GetNextOp(tree, ttid, cur) IN
      IF g[4] > 0 THEN
         /\ tree' = g[1] /\ ttid' = g[2] /\ cur' = g[3] /\ out' = Append(out, g[4])
-        /\ mode' = IF mode = "idle" THEN "walk" ELSE mode
+        /\ mode' = IF mode = "idle" THEN "walk" ELSE IF mode = "rmwalk-r" THEN "rmwalk" ELSE mode
         /\ unfinished' = TRUE /\ lastOp' = Op("next", 0, 0, g[4]) /\ UNCHANGED bad
      ELSE IF g[4] = 0 THEN
         /\ tree' = g[1] /\ ttid' = g[2] /\ cur' = None /\ mode' = "idle" /\ out' = <<>>
@@ -227,10 +227,27 @@ GetNext ==
         /\ lastOp' = Op("next", 0, 0, 0)
         /\ bad' = IF mode = "nwalk"
                   THEN (IF Len(out) = Count(tree) /\ {out[i] : i \in 1..Len(out)} = KeySet THEN "" ELSE "nwalk-wrong")
+                  ELSE IF mode \in {"rmwalk", "rmwalk-r"}          \* a full sweep is not promised; no key twice, ascending
+                  THEN (IF \A i, j \in 1..Len(out) : i < j => out[i] < out[j] THEN "" ELSE "rmwalk-order")
                   ELSE (IF out = InOrder(tree) THEN "" ELSE "walk-wrong")
      ELSE /\ bad' = (IF g[4] = -1 THEN "walk-dangling" ELSE "walk-loop")
           /\ UNCHANGED <<tree, ttid, cur, out, mode, unfinished, lastOp>>
-Abandon == /\ bad = "" /\ mode \in {"walk", "nwalk"} /\ mode' = "idle" /\ cur' = None /\ out' = <<>>
+\* The documented "removal in an iteration loop": remove the key getnext has just returned, then re-seat the cursor with
+\* find_nearest(removed key) ("rewind one step back") and go on calling getnext.  The documentation does not promise a full
+\* sweep after a removal; what the model demands is that the loop stays memory-safe and ends (no dangling link followed, fuel
+\* not exhausted: Good), that the search returns the floor of the removed key, and that no key is returned twice.
+RemoveInLoop ==
+  /\ bad = "" /\ mode \in {"walk", "rmwalk"} /\ out # <<>>
+  /\ LET k == out[Len(out)]
+         t1 == RemTree(tree, k)
+     IN IF t1 = Nil THEN /\ tree' = Nil /\ cur' = None /\ lastOp' = Op("rmnext", k, 0, 0) /\ UNCHANGED bad
+        ELSE LET r == NearestOp(t1, k)  found == r[2] IN
+             /\ tree' = r[1] /\ lastOp' = Op("rmnext", k, 0, found)
+             /\ IF found < 0 THEN bad' = (IF found = -1 THEN "rmloop-dangling" ELSE "rmloop-loop") /\ UNCHANGED cur
+                ELSE IF found # FloorOf(KeySetOf(t1), k) THEN bad' = "rmloop-wrong" /\ UNCHANGED cur
+                ELSE cur' = [tid |-> ttid, nx |-> found] /\ UNCHANGED bad
+  /\ mode' = "rmwalk-r" /\ UNCHANGED <<ttid, out, unfinished>>         \* "-r": a getnext must come before the next removal
+Abandon == /\ bad = "" /\ mode \in {"walk", "nwalk", "rmwalk", "rmwalk-r"} /\ mode' = "idle" /\ cur' = None /\ out' = <<>>
            /\ lastOp' = Op("abandon", 0, 0, 0) /\ UNCHANGED <<tree, ttid, unfinished, bad>>
 \* nearest-key search for probe p; cont = 1: the client goes on calling getnext from the returned cursor
 Nearest(p, cont) ==
@@ -247,13 +264,17 @@ Next == \/ \E k \in Keys, v \in Vals : Put(k, v)
         \/ \E k \in Keys : Remove(k) \/ Get(k)
         \/ FindMin \/ FindMax \/ SizeOp \/ Clear \/ Debug
         \/ (WithIter /\ (GetNext \/ Abandon \/ \E p \in 0..(MaxKey + 1), c \in 0..1 : Nearest(p, c)))
+        \/ (WithIter /\ RemoveInLoop)
 Spec == Init /\ [][Next]_vars
 
 \* ---------------------------------------------------------------- properties checked on the model
 Good == bad = ""                                 \* C03/C04: no walk or search ever went wrong
 TreeValid == Valid(tree)                         \* C02
 \* C01: refinement to the ideal sorted map, with labelled steps
-Abs == INSTANCE SortedMap WITH map <- AbsMap(tree), last <- [op |-> lastOp.op, a |-> lastOp.a, b |-> lastOp.b, res |-> lastOp.res]
+\* (the removal inside an iteration loop is, for the map, the removal of a present key)
+Abs == INSTANCE SortedMap WITH map <- AbsMap(tree),
+          last <- IF lastOp.op = "rmnext" THEN [op |-> "rm", a |-> lastOp.a, b |-> 0, res |-> 1]
+                  ELSE [op |-> lastOp.op, a |-> lastOp.a, b |-> lastOp.b, res |-> lastOp.res]
 RefinesSortedMap == Abs!Spec
 View == <<tree, ttid, cur, out, mode, unfinished, bad>>
 Proj(t, tt, c, o, m, u) == [tree |-> t, ttid |-> tt, cur |-> c, out |-> o, mode |-> m, unf |-> u]
